@@ -795,7 +795,11 @@ pub fn run_c10(tier: &str) -> i32 {
     // (a flush whose content equals what an earlier flush left in the same slot)
     let scripts2 = [
         format!("load,s{},pflush,s{},flush", flushes + 1, flushes + 2),
-        format!("load,r{},flush,s{},pflush", flushes - 2, flushes + 2),
+        if tier == "thorough" {
+            format!("load,r{},flush,s{},pflush", flushes - 2, flushes + 2)
+        } else {
+            format!("load,r{},flush", flushes - 2)
+        },
     ];
     let starts: Vec<(String, PathBuf, Vec<Value>)> =
         distinct_dirs.iter().take(max_l2).map(|(k, (d, a))| (k.clone(), d.clone(), a.clone())).collect();
